@@ -33,6 +33,10 @@ def probe_b(detector, tag=None, **kwargs):
     probe(detector, tag=tag, **kwargs)
 
 
+def probe_c(detector, tag=None, **kwargs):
+    probe(detector, tag=tag, **kwargs)
+
+
 def init_buckets(detector):
     """Always-enabled helper model: initialises the buckets the real exposure loop needs to build its result
     (real pyxel cannot merge >= 2 readouts when no model ever writes the image).  Not recorded in TRACE."""
